@@ -205,7 +205,7 @@ pub fn parse(data: &str) -> Result<KyGElements, Error> {
                         },
                     );
                 }
-                _ => println!("Desconocido"),
+                _ => log::warn!("Desconocido"),
             };
         }
         // Ganancias solares de hueco
